@@ -488,15 +488,20 @@ def rule_panic_census(ctx):
 # ICCMA'23 reader guards
 
 
-def _is_exact_call_result(prog, body, op, regex, parent=None):
+def _is_exact_call_result(prog, body, op, regex, parent=None, call_site=None):
     """the operand is (a copy of) the result of a call matching `regex` - no arithmetic in between;
     inside a closure the value may come from a by-reference capture of such a variable of `parent`"""
     root = value_root(body, op)
     if root is None:
         return False
-    if root[0] == "local":
+    if root[0] == "local" and not (body.kind != "closure" and call_site is not None and 1 <= root[1] <= body.n_args):
         ds = body.defs.get(root[1], [])
         return len(ds) == 1 and ds[0].si is None and callee_matches(callee_of(ds[0]), regex)
+    if root[0] in ("local", "place") and body.kind != "closure" and call_site is not None and parent is not None and 1 <= root[1] <= body.n_args and not (root[0] == "place" and root[2]):
+        # a parameter of a plain function: the value is what the caller passes at `call_site`
+        if root[1] - 1 < len(call_site.node["args"]):
+            return _is_exact_call_result(prog, parent, call_site.node["args"][root[1] - 1], regex)
+        return False
     if root[0] == "place" and body.kind == "closure" and root[1] == 1 and parent is not None and root[2]:
         try:
             nm = body.upvar_name(int(root[2][0]))
@@ -561,21 +566,29 @@ def rule_iccma_guards(ctx):
             kop = sub.data["ops"][0]
             # the closure that parsed it
             parser = None
+            parser_call = None
             word_idx = None
             root = value_root(rd, kop)
             if root and root[0] == "place":
                 for o in origins(rd, {"l": root[1], "p": []}, transparent=("core::ops::try_trait::Try::branch", "anyhow::Context::with_context", "anyhow::Context::context")):
                     if o.kind == "call":
                         parser = prog.body_for_callee(o.data, rd)
-                        # which word: tuple argument (word, role name)
-                        for oo in origins(rd, o.site.node["args"][1], transparent=()):
-                            if oo.kind == "agg" and oo.data["kind"] == "tuple":
-                                _, cs, _ = data_deps(rd, oo.site.node["rv"]["ops"][0])
-                                for cx in cs:
-                                    if callee_decl(callee_of(cx)) == "core::ops::index::Index::index":
-                                        kk = op_const(cx.node["args"][1])
-                                        if kk is not None:
-                                            word_idx = kk.get("int")
+                        parser_call = o.site
+                        # which word: tuple argument (word, role name) of a closure call, first argument of a plain function
+                        word_ops = []
+                        if parser is not None and parser.kind != "closure":
+                            word_ops = [o.site.node["args"][0]] if o.site.node["args"] else []
+                        else:
+                            for oo in origins(rd, o.site.node["args"][1], transparent=()) if len(o.site.node["args"]) > 1 else []:
+                                if oo.kind == "agg" and oo.data["kind"] == "tuple":
+                                    word_ops.append(oo.site.node["rv"]["ops"][0])
+                        for wop in word_ops:
+                            _, cs, _ = data_deps(rd, wop)
+                            for cx in cs:
+                                if callee_decl(callee_of(cx)) == "core::ops::index::Index::index":
+                                    kk = op_const(cx.node["args"][1])
+                                    if kk is not None:
+                                        word_idx = kk.get("int")
             r.check(word_idx == pos - 1, anchor, "word=%s" % word_idx, "%s is parsed from word %d of the line" % (role, pos - 1), "the %s is parsed from word %s of the line" % (role, word_idx), s.loc())
             if not r.check(parser is not None, anchor, "no-parser", "index parsed by a local closure", loc=s.loc()):
                 continue
@@ -592,7 +605,7 @@ def rule_iccma_guards(ctx):
                         for o in origins(parser, c.place, transparent=()):
                             if o.kind == "binop" and o.data["op"] == "Le":
                                 a, b2 = o.data["ops"]
-                                if value_root(parser, a) == value_root(parser, n["rv"]["ops"][0]) and _is_exact_call_result(prog, parser, b2, r"AAFramework::n_arguments$", parent=rd):
+                                if value_root(parser, a) == value_root(parser, n["rv"]["ops"][0]) and _is_exact_call_result(prog, parser, b2, r"AAFramework::n_arguments$", parent=rd, call_site=parser_call):
                                     ub = True
             r.check(ub, anchor, "no-upper-bound", "accepted indexes are <= the framework's argument count", "an index above the number of arguments can be accepted", parser.loc())
     # G4 blank-line flag
